@@ -1,16 +1,20 @@
 ---------------------------- MODULE HandlesWf_Gen ----------------------------
-(* Workflow histories for the real scheduler: kinds, per run the version vector and the stages each
-   system executes (A as built, F repaired) and the stages A replays against the reference. *)
+(* Workflow histories for the real scheduler: kinds, per run the version vector, the stage at which
+   the run fails (0 = none) and the stages each system executes (A as built, F repaired, W the
+   what-if system that rolls back only when a job succeeds) and the stages A replays against the
+   reference.  Histories with exW # exF are the ones that show that the rollback precedes execution. *)
 EXTENDS HandlesWf, Json
-VARIABLES whist, wemitted
-WGInit == WInit /\ whist = <<>> /\ wemitted = FALSE
+VARIABLES whist, wemitted, sysW, lastW
+WGInit == WInit /\ whist = <<>> /\ wemitted = FALSE /\ sysW = Sys0 /\ lastW = {}
 WGStep == /\ WNext
-          /\ whist' = Append(whist, [vers |-> prev', exA |-> lastA'.ex, exF |-> lastF'.ex,
-                                     badA |-> lastA'.bad, fired |-> sysA'.fired])
+          /\ \E w \in {RunWf({"NoRollbackOnFailure"}, sysW, kinds, prev', lastfail')} :
+                sysW' = w.S /\ lastW' = w.ex
+          /\ whist' = Append(whist, [vers |-> prev', fail |-> lastfail', exA |-> lastA'.ex, exF |-> lastF'.ex,
+                                     exW |-> lastW', badA |-> lastA'.bad, fired |-> sysA'.fired])
           /\ UNCHANGED wemitted
 WGEmit == /\ nruns = MaxRuns /\ ~wemitted
           /\ PrintT("WBEH " \o ToJson([kinds |-> kinds, runs |-> whist]))
-          /\ wemitted' = TRUE /\ UNCHANGED <<wvars, whist>>
+          /\ wemitted' = TRUE /\ UNCHANGED <<wvars, whist, sysW, lastW>>
 WGSpec == /\ WGInit /\ m = M0 /\ mfix = M0 /\ r = R0 /\ fired = {} /\ stale = FALSE /\ nops = 0 /\ lastop = NoOp
-          /\ [][(WGStep \/ WGEmit) /\ UNCHANGED vars]_<<wvars, vars, whist, wemitted>>
+          /\ [][(WGStep \/ WGEmit) /\ UNCHANGED vars]_<<wvars, vars, whist, wemitted, sysW, lastW>>
 =============================================================================
